@@ -2,6 +2,7 @@
 from __future__ import annotations
 
 from sa.selftest import Mutant, Silent
+from sa.props._lib_k import no_crash
 from sa.source import AnalysisError
 from sa.props._lib_k import Interp, Nonterminating, freeze
 
@@ -922,19 +923,19 @@ def check_buffer_structure(ctx):
 
 def check(ctx):
     with ctx.section("LogPublisher structure"):
-        check_publisher_structure(ctx)
+        no_crash('check_publisher_structure', check_publisher_structure, ctx)
     with ctx.section("filter structure"):
-        check_filter_structure(ctx)
+        no_crash('check_filter_structure', check_filter_structure, ctx)
     with ctx.section("history buffer structure"):
-        check_buffer_structure(ctx)
+        no_crash('check_buffer_structure', check_buffer_structure, ctx)
     with ctx.section("LogPublisher"):
-        check_publisher(ctx)
+        no_crash('check_publisher', check_publisher, ctx)
     with ctx.section("LogLevelFilterPredicate histories"):
-        check_filter_histories(ctx)
+        no_crash('check_filter_histories', check_filter_histories, ctx)
     with ctx.section("shouldLogEvent / FilteringLogObserver"):
-        check_filtering(ctx)
+        no_crash('check_filtering', check_filtering, ctx)
     with ctx.section("LimitedHistoryLogObserver"):
-        check_buffer(ctx)
+        no_crash('check_buffer', check_buffer, ctx)
 
 
 # a memo of resolved prefix lookups added to LogLevelFilterPredicate (shared by a mutant and a silent variant)
